@@ -37,6 +37,7 @@ type World struct {
 	Fate    map[string]string
 	Wire    []WireMsg // everything handed to a Transport for delivery
 	Derefs  []DerefRec
+	Tx      *TxWorld
 }
 
 // WireMsg records one BatchDeliver / Deliver.
